@@ -144,8 +144,15 @@ func mkTree(k int) *tree {
 	dir(rootRel + "2") // sibling whose name has the root as string prefix
 	file(rootRel + "2/steal.txt")
 	file(rootRel + ".gz")
-	h := sha1.Sum([]byte{byte(k)})
-	t.base = scratch + "/t" + hex.EncodeToString(h[:3])
+	// the directory name is a hash of the tree's content, so a stale tree of another harness version is never reused
+	hh := sha1.New()
+	for _, e := range t.entries {
+		hh.Write([]byte(e.rel))
+		hh.Write([]byte{0, boolByte(e.dir)})
+		hh.Write(e.content)
+		hh.Write([]byte{0xff})
+	}
+	t.base = scratch + "/t" + hex.EncodeToString(hh.Sum(nil)[:5])
 	fs := hv.L{}
 	// ancestors of base
 	parts := strings.Split(strings.TrimPrefix(t.base, "/"), "/")
@@ -162,6 +169,13 @@ func mkTree(k int) *tree {
 	t.val = fs
 	t.rootVal = elems(t.base + "/" + t.root)
 	return t
+}
+
+func boolByte(b bool) byte {
+	if b {
+		return 1
+	}
+	return 0
 }
 
 var pool []*tree
